@@ -49,7 +49,7 @@ def run(chk):
         for k in range(n):
             items = printer.gen_items(chk.rng, allow_services=False)
             files = {}
-            mode = chk.rng.choice(["valid", "undeclared", "forward", "self", "via-module", "valid"])
+            mode = chk.rng.choice(["valid", "undeclared", "forward", "self", "via-module", "valid", "via-nested-modules"])
             structs = [i for i, it in enumerate(items) if it[0] == "struct"]
             expect_err = None
             if mode == "via-module":
@@ -67,6 +67,25 @@ def run(chk):
                     expect_err = (name, items[si][1])
                 else:
                     si, name = None, None
+            elif mode == "via-nested-modules":
+                # main imports a/<base>.fcp and b/api.fcp; b/api.fcp imports b/<base>.fcp (same file name, other directory, other
+                # declarations) and refers to its types; main refers to types of all three
+                base = chk.rng.choice(["types", "m", "common"])
+                a_items = printer.gen_items(chk.rng, prefix="MA_", allow_services=False)
+                b_items = printer.gen_items(chk.rng, prefix="MB_", allow_services=False)
+                bnames = [it[1] for it in b_items if it[0] in ("struct", "enum")]
+                api_fields = [{"name": f"r{j}", "id": j, "type": chk.rng.choice([("ref", nm), ("arr", ("ref", nm), 2), ("opt", ("ref", nm))]), "params": []}
+                              for j, nm in enumerate(chk.rng.sample(bnames, min(len(bnames), 2)))]
+                api_items = [("mod", [base])] + ([("struct", "API_S", api_fields)] if api_fields else [])
+                files[f"a/{base}.fcp"] = printer.render(printer.tokens(a_items))
+                files[f"b/{base}.fcp"] = printer.render(printer.tokens(b_items))
+                files["b/api.fcp"] = printer.render(printer.tokens(api_items))
+                imports = [("mod", ["a", base]), ("mod", ["b", "api"])]
+                chk.rng.shuffle(imports)
+                items[0:0] = imports
+                mnames = [it[1] for it in a_items + b_items if it[0] in ("struct", "enum")] + (["API_S"] if api_fields else [])
+                cand = [i for i, it in enumerate(items) if it[0] == "struct"]
+                si, name = (chk.rng.choice(cand), chk.rng.choice(mnames)) if cand and mnames else (None, None)
             elif structs:
                 si = chk.rng.choice(structs)
                 if mode == "undeclared":
@@ -99,13 +118,13 @@ def run(chk):
             chk.hist("mode", mode); chk.hist("outcome", out[0])
             if expect_err is not None:
                 if out[0] != "err":
-                    fails.append({"kind": "dangling-reference-accepted" if out[0] == "ok" else "exception-escaped", "source": files["main.fcp"],
+                    fails.append({"kind": "dangling-reference-accepted" if out[0] == "ok" else "exception-escaped", "source": files["main.fcp"], "files": dict(files),
                                   "type": expect_err[0], "struct": expect_err[1], "detail": str(out[1])[:300]})
                 elif expect_err[0] not in out[1] or expect_err[1] not in out[1]:
-                    fails.append({"kind": "error-does-not-name-type-and-struct", "source": files["main.fcp"], "type": expect_err[0],
+                    fails.append({"kind": "error-does-not-name-type-and-struct", "source": files["main.fcp"], "files": dict(files), "type": expect_err[0],
                                   "struct": expect_err[1], "diagnostic": out[1]})
             elif out[0] != "ok":
-                fails.append({"kind": "valid-schema-rejected", "source": files["main.fcp"], "mode": mode, "detail": str(out[1])[:400]})
+                fails.append({"kind": "valid-schema-rejected", "source": files["main.fcp"], "files": dict(files), "mode": mode, "detail": str(out[1])[:400]})
             if out[0] == "ok":
                 fcp = out[1]
                 from fcp.specs import type as T
@@ -120,7 +139,7 @@ def run(chk):
                                                       (type(r) is T.EnumType and isinstance(tgt.unwrap(), Enum)))
                             good = good and r.name in seen
                             if not good:
-                                fails.append({"kind": "unresolved-or-miskinded-reference-in-accepted-tree", "source": files["main.fcp"],
+                                fails.append({"kind": "unresolved-or-miskinded-reference-in-accepted-tree", "source": files["main.fcp"], "files": dict(files),
                                               "struct": s.name, "field": fld.name, "reference": r.name})
                     seen.append(s.name)   # structs in elaboration order (imports merged in place); enums: declared anywhere
     finally:
